@@ -50,6 +50,14 @@ def scenarios(run):
                         st += [S("recv", c=2)] * nvals(kind)
                     st += [S("recv", c=1), S("waitret", id=1), S("end")]
                     out.append(dict(timeout=tmo, steps=st, pat="P2"))
+    # P8 three subscribers, the publish held up by the first (unbuffered) one, a concurrent Unsub of the first / middle / last
+    #    (on its own goroutine: the Sync variants make it wait); everybody who stays subscribed gets every event exactly once
+    for kind in KINDS:
+        for victim in (1, 2, 3):
+            st = [S("sub", c=1, buf=0), S("sub", c=2, buf=2), S("sub", c=3, buf=2), S("pub", id=1, kind=kind, n=nvals(kind), only=0), S("quiesce"),
+                  S("unsub_async", c=victim), S("quiesce")]
+            st += [S("recv", c=1)] * nvals(kind) + [S("quiesce"), S("wait_unsub"), S("waitret", id=1), S("end")]
+            out.append(dict(timeout=False, steps=st, pat="P8"))
     # P3 error values: unknown, nil, twice
     out.append(dict(timeout=False, pat="P3", steps=[S("sub", c=1, buf=1), S("unsub", c=99), S("unsub", c=0), S("unsub", c=1), S("unsub", c=1),
                                                     S("recv", c=1), S("pub", id=1, kind="PubSync", n=1, only=0), S("waitret", id=1), S("end")]))
